@@ -21,6 +21,21 @@ Theorem C10_add_overwrites_only_blank : forall ls : list str,
   ins_index ls < length ls /\ is_blank_line (nth (ins_index ls) ls []) = true.
 Proof. exact add_overwrites_only_a_blank_line. Qed.
 
+(* WHERE the note goes, for every page: split the lines into paragraphs at blank lines; with P the LAST paragraph that
+   holds an item (all its lines non-blank, one of them starts an item), b the blank line that ends it and B the rest
+   of the page (no item starts there: headers, comments, blank lines), the note is written directly below P, the
+   blank line after it, and A, P and B are unchanged. *)
+Theorem C10_added_below_the_last_item_paragraph : forall text A P b B,
+  forallb (fun c => negb (ceqb c nlc)) text = true ->
+  forallb (fun l => negb (is_blank_line l)) P = true -> existsb starts_item P = true ->
+  is_blank_line b = true -> forallb (fun l => negb (starts_item l)) B = true ->
+  add_lines (text ++ [nlc]) (A ++ P ++ b :: B) = A ++ P ++ text :: [] :: B.
+Proof. exact add_below_last_item_paragraph. Qed.
+(* a page without items: the note replaces the last line (the empty string after the final newline) *)
+Theorem C10_added_at_the_end_of_a_page_without_items : forall ls,
+  forallb (fun l => negb (starts_item l)) ls = true -> ins_index ls = length ls - 1.
+Proof. exact ins_index_no_items. Qed.
+
 (* REFUTED: destination without trailing newline; ZID mentioned in an earlier line *)
 Theorem C10_no_trailing_newline_refuted :
   add_note (S "- moved" ++ [nlc]) (S "# C header only") = S "- moved" ++ [nlc].
@@ -40,5 +55,7 @@ Proof. vm_compute. reflexivity. Qed.
 Print Assumptions C10_delete_partial.
 Print Assumptions C10_add_partial.
 Print Assumptions C10_add_overwrites_only_blank.
+Print Assumptions C10_added_below_the_last_item_paragraph.
+Print Assumptions C10_added_at_the_end_of_a_page_without_items.
 Print Assumptions C10_no_trailing_newline_refuted.
 Print Assumptions C10_zid_mentioned_earlier_refuted.
